@@ -242,6 +242,46 @@ func (k *wk) call(name, arg string, n int, gets *int, f func() (proj []string, e
 	return rec.Outcome
 }
 
+// callEach logs n calls of the same kind as one record: every inner call is
+// measured by itself and the record carries the worst CPU time and the worst
+// allocation of a single call (the envelope is per call), the total wall time
+// and the goroutine counts around the whole loop.
+func (k *wk) callEach(name string, n int, gets *int, each func(i int)) {
+	if k.skip[name] {
+		return
+	}
+	k.send(map[string]string{"b": name, "a": ""})
+	if gets != nil {
+		*gets = 0
+	}
+	var worstCpu time.Duration
+	var worstAlloc uint64
+	rec := k.measure(name, "", func() ([]string, error) {
+		for i := 0; i < n; i++ {
+			a0 := k.allocNow()
+			c0 := cpuNow()
+			each(i)
+			if d := cpuNow() - c0; d > worstCpu {
+				worstCpu = d
+			}
+			if d := k.allocNow() - a0; d > worstAlloc {
+				worstAlloc = d
+			}
+		}
+		return nil, nil
+	})
+	if rec.Outcome == "ok" {
+		rec.CpuUs = int(worstCpu / time.Microsecond)
+		rec.AllocKB = int(worstAlloc / 1024)
+	}
+	rec.N = n
+	if gets != nil {
+		rec.Gets = *gets
+	}
+	k.recs++
+	k.send(map[string]any{"r": rec})
+}
+
 // measure executes f and fills in the record.
 func (k *wk) measure(name, arg string, f func() (proj []string, err error)) Rec {
 	g0 := runtime.NumGoroutine()
@@ -380,18 +420,15 @@ func (k *wk) walkFile(passwords []string) {
 	if fi == nil {
 		return
 	}
-	k.call("seqread", "", 1, nil, func() ([]string, error) {
-		n := 0
-		for _, sec := range fi.Sections {
-			for _, o := range sec.Objects {
-				if n++; n > 400 {
-					return nil, nil
-				}
-				_, _ = fi.Read(o)
+	var fobjs []*pdf.FileObject
+	for _, sec := range fi.Sections {
+		for _, o := range sec.Objects {
+			if len(fobjs) < 400 {
+				fobjs = append(fobjs, o)
 			}
 		}
-		return nil, nil
-	})
+	}
+	k.callEach("seqread", len(fobjs), nil, func(i int) { _, _ = fi.Read(fobjs[i]) })
 	var firstSeq *pdf.Reader
 	for _, m := range modes {
 		var r *pdf.Reader
@@ -425,8 +462,9 @@ func (k *wk) deepWalk(r *pdf.Reader, refs []pdf.Reference, full bool) {
 	var streamRefs []pdf.Reference
 	var fontRefs []pdf.Reference
 	seenFont := map[pdf.Reference]bool{}
-	k.call(pfx+"get", "", len(refs), nil, func() ([]string, error) {
-		for _, ref := range refs {
+	k.callEach(pfx+"get", len(refs), nil, func(i int) {
+		ref := refs[i]
+		{
 			obj, _ := r.Get(ref, true)
 			switch o := obj.(type) {
 			case *pdf.Stream:
@@ -441,15 +479,9 @@ func (k *wk) deepWalk(r *pdf.Reader, refs []pdf.Reference, full bool) {
 				}
 			}
 		}
-		return nil, nil
 	})
 	// the same through the public helper that follows reference chains
-	k.call(pfx+"resolve", "", len(refs), &gets, func() ([]string, error) {
-		for _, ref := range refs {
-			_, _ = pdf.Resolve(g, ref)
-		}
-		return nil, nil
-	})
+	k.callEach(pfx+"resolve", len(refs), &gets, func(i int) { _, _ = pdf.Resolve(g, refs[i]) })
 	for i, stm := range streams {
 		k.call(pfx+"decode", streamRefs[i].String(), 1, &gets, func() ([]string, error) {
 			rc, err := pdf.DecodeStream(g, nil, stm)
@@ -684,9 +716,10 @@ func nameTreeWalk(g pdf.Getter, root pdf.Object) ([]string, error) {
 // WorkerMain is the entry point of the child process.
 func WorkerMain() {
 	// A bounded recursion of 256 levels (the documented depth caps) never
-	// needs more; an unbounded one dies here quickly instead of eating 1 GB.
+	// needs more than 64 KiB per level; an unbounded one dies here quickly
+	// instead of eating 1 GB.
 	if os.Getenv("C05_DEFAULT_STACK") == "" {
-		debug.SetMaxStack(64 << 20)
+		debug.SetMaxStack(16 << 20)
 	}
 	in := bufio.NewReaderSize(os.Stdin, 1<<20)
 	dec := json.NewDecoder(in)
